@@ -8,18 +8,32 @@ open YaegiVerif.Debug
 def facts : DebugLoopFacts :=
   { loopOrder := ["dbg.exec", "step-hook", "exec", "nil-break", "m-nil", "switch"],
     probeOrder := ["tnext", "fnext", "original"],
-    cmpByPointer := true,
+    -- d1e6c4c (F20): isExecNode compares the closure objects (execID), no longer their code
+    execCmp := "closure-identity",
+    -- 3d77a98 (F19-1): isExecNode accepts the forwarding closure recorded on the node, …
+    acceptsForward := true,
+    -- d1e6c4c: originalExecNode tests the nodes with isExecNode
+    origCmp := "isExecNode",
+    -- 3d77a98: … which setExec records when it installs it on the target of a back edge (setForwardExec)
+    backEdge := "forward-recorded",
     caseOrder := ["terminate", "break", "run", "out", "over"],
     overCmp := ">",
     outCmp := ">=",
     noPosSkips := true,
     depthOps := ["enterCall:f.debug.g.fDepth++", "enterCall:f.debug.g.fDepth++", "exitCall:f.debug.g.fDepth--"] }
 
+/-- the facts of the unchanged code (before d1e6c4c and 3d77a98), kept for the regression examples
+    that reproduce the old behaviour on the old findings -/
+def factsBeforeRepair : DebugLoopFacts :=
+  { facts with execCmp := "code-pointer", acceptsForward := false, origCmp := "code-pointer",
+               backEdge := "forward-unrecorded" }
+
 /-- fingerprints (extract/common FuncHash) of the functions Model/Debug.lean was transcribed from -/
 def sourceHashes : List (String × String) :=
   [("runCfg", "d90b0b7ab1fcffd5"),
-   ("isExecNode", "d5744b63d90e06d6"),
-   ("originalExecNode", "585d511d42ee5a5b"),
+   ("isExecNode", "62763c4a3e03f829"),        -- d1e6c4c, 3d77a98
+   ("execID", "ac745be092c64f54"),            -- new in d1e6c4c
+   ("originalExecNode", "1dff6d29dda42e0e"),  -- d1e6c4c
    ("Debugger.exec", "9855b3f1a0ee5129"),
    ("Debugger.enterCall", "b9d164a29c4570d0"),
    ("Debugger.exitCall", "4c15dd1fb1de22c0"),
@@ -33,7 +47,8 @@ def sourceHashes : List (String × String) :=
    ("node.setBreakOnLine", "f42e739c506063d0"),
    ("node.setBreakOnCall", "0b55432840c1b558"),
    ("node.Walk", "d0ed2a2c9f1de374"),
-   ("setExec", "8eb871ddd3be8060"),
+   ("setExec", "5d0d0940aba27548"),           -- 3d77a98
+   ("setForwardExec", "dba5675e0de46456"),    -- new in 3d77a98
    ("getExec", "5f3f6e86261d4245")]
 
 end YaegiVerif.Expected.C19
